@@ -406,7 +406,8 @@ def oracle_controlled(r):
         if got_shape != full_shape:
             raise Violation(f"controlled {gr[0]} via {via}: qid_shape is not controls+target\n  got {got_shape} expected {full_shape} gate={gr if len(str(gr)) < 300 else gr[0]} specs={specs}")
         m = cirq.unitary(cur)
-        result_type = type(cur).__name__
+        result_type = type(cur).__name__  # for the message only
+        specialised = not isinstance(cur, cirq.ControlledGate)
     else:
         got_shape = tuple(q.dimension for q in cur_op.qubits)
         if got_shape != full_shape:
@@ -414,7 +415,8 @@ def oracle_controlled(r):
         if tuple(cur_op.qubits[-len(tq):]) != tuple(tq) and len(tq):
             raise Violation(f"controlled {gr[0]} via {via}: target qubits are not the last qubits of the operation")
         m = cirq.unitary(cur_op)
-        result_type = type(cur_op).__name__ + ":" + type(cur_op.gate).__name__
+        result_type = type(cur_op).__name__ + ":" + type(cur_op.gate).__name__  # for the message only
+        specialised = not isinstance(cur_op, cirq.ControlledOperation) and not isinstance(cur_op.gate, cirq.ControlledGate)
     m = np.asarray(m)
     detail = f"\n  gate={gr if len(str(gr)) < 300 else gr[0]} specs={specs} result={result_type}"
     if m.shape != want.shape:
@@ -425,7 +427,7 @@ def oracle_controlled(r):
     nondefault = any(expand_spec(s) != {tuple([1] * len(s["dims"]))} for s in specs)
     return {"nontrivial": bool(nondefault), "family": gr[0], "via": via, "nested": len(specs) > 1,
             "qudit_control": any(d != 2 for s in specs for d in s["dims"]), "qudit_target": any(d != 2 for d in tshape),
-            "specialised": "Controlled" not in result_type, "kinds": "+".join(s["kind"] for s in specs),
+            "specialised": bool(specialised), "kinds": "+".join(s["kind"] for s in specs),
             "n_controls": sum(len(s["dims"]) for s in specs)}
 
 
